@@ -156,7 +156,25 @@ impl<'a, 'b> W<'a, 'b> {
             V::Null => self.put("null"),
             V::Bool(b) => self.put(if *b { "true" } else { "false" }),
             V::Int(i) => self.put(&i.to_string()),
-            V::Float(f) => self.put(&fmt_float(*f)),
+            V::Float(f) => {
+                // the spellings other writers use for the same number: `1e+22` (explicit exponent
+                // sign: Python, JavaScript), `1E22`, `1.0e22`
+                let mut t = fmt_float(*f);
+                if self.layout {
+                    if let Some(i) = t.find('e') {
+                        if !t[i + 1..].starts_with('-') && self.u.chance(1, 2) {
+                            t.insert(i + 1, '+');
+                        }
+                        if !t[..i].contains('.') && self.u.chance(1, 3) {
+                            t.insert_str(i, ".0");
+                        }
+                        if self.u.chance(1, 4) {
+                            t = t.replace('e', "E");
+                        }
+                    }
+                }
+                self.put(&t)
+            }
             V::Str(s) => {
                 if yaml {
                     self.yaml_string(s)
